@@ -348,23 +348,86 @@ func (fr *Frame) atomicIntrinsic(ins ssa.Instruction, callee *ssa.Function, c *s
 	}
 	trustedUsed["sync/atomic Load/Store/Add/CompareAndSwap act as sequential reads/writes of the cell (interference from other goroutines is handled by the rely/guarantee obligations of C10 only)"] = true
 	cur := fr.loadVia(c.Args[0], pt.Elem())
+	fams, addrs, _ := fr.placeLeaves(c.Args[0], pt.Elem())
+	var rg *RGSpec
+	key := ""
+	if len(fams) == 1 && fr.q.eng.RG != nil {
+		rg = fr.q.eng.RG[fams[0]]
+		key = fams[0] + "@" + addrs[0]
+	}
+	// rgCheck: the update old -> new must satisfy the guarantee for every value `now` the cell may hold at this
+	// instant, i.e. every value rely-reachable from what this thread last observed (exact: the observed value itself).
+	rgCheck := func(newv string, exact string) {
+		if rg == nil || !fr.q.opts.RG {
+			return
+		}
+		q := fr.q
+		now := exact
+		if now == "" {
+			now = q.fresh(fr.prefix+"_now", "Int")
+			if seen, ok := fr.root().lastAtomicLoad[key]; ok {
+				env := newSpecEnv(fr, fr.fn)
+				env.st, env.old = fr.cur.st, fr.cur.st
+				env.names["old"] = intSV(seen)
+				env.names["new"] = intSV(now)
+				if t, err := env.evalBool(rg.Rely.Expr); err == nil {
+					q.assume(fr.cur.reach, sOr(sEq(now, seen), t))
+				}
+			}
+		}
+		env := newSpecEnv(fr, fr.fn)
+		env.st, env.old = fr.cur.st, fr.cur.st
+		env.names["old"] = intSV(now)
+		env.names["new"] = intSV(newv)
+		t, err := env.evalBool(rg.Guarantee.Expr)
+		if err != nil {
+			q.note("rg " + rg.Name + ": " + err.Error())
+			return
+		}
+		k := fr.callOrdinal("rg:" + rg.Name)
+		q.addObligation(fr, "rg", fmt.Sprintf("%s#%d:%s", rg.Name, k, rg.Guarantee.Text), ins.Pos(), fr.cur.reach, t)
+	}
 	switch {
 	case strings.HasPrefix(name, "Load"):
+		if key != "" {
+			v := fr.q.fresh(fr.prefix+"_aload", "Int")
+			fr.q.assume("true", sEq(v, cur.C[0]))
+			fr.root().lastAtomicLoad[key] = v
+			return Val{C: []string{v}}, true
+		}
 		return cur, true
 	case strings.HasPrefix(name, "Store"):
+		rgCheck(args[1].C[0], "")
 		fr.storeVia(c.Args[0], pt.Elem(), args[1])
 		return Val{}, true
 	case strings.HasPrefix(name, "Add"):
 		nv := Val{C: []string{"(+ " + cur.C[0] + " " + args[1].C[0] + ")"}}
+		rgCheck(nv.C[0], cur.C[0])
 		fr.storeVia(c.Args[0], pt.Elem(), nv)
 		return nv, true
 	case strings.HasPrefix(name, "Swap"):
+		rgCheck(args[1].C[0], "")
 		fr.storeVia(c.Args[0], pt.Elem(), args[1])
 		return cur, true
 	case strings.HasPrefix(name, "CompareAndSwap"):
-		ok := fr.q.fresh(fr.prefix+"_cas", "Bool")
-		fr.q.assume("true", sEq(ok, sEq(cur.C[0], args[1].C[0])))
-		nv := Val{C: []string{sIte(ok, args[2].C[0], cur.C[0])}}
+		// interference: the cell holds an arbitrary rely-reachable value `now`; the swap happens iff now == expected
+		q := fr.q
+		now := cur.C[0]
+		if rg != nil && q.opts.RG {
+			now = q.fresh(fr.prefix+"_casnow", "Int")
+		}
+		ok := q.fresh(fr.prefix+"_cas", "Bool")
+		q.assume("true", sEq(ok, sEq(now, args[1].C[0])))
+		if rg != nil && q.opts.RG {
+			// on success the old value is exactly the expected one
+			save := fr.cur.reach
+			sr := q.fresh(fr.prefix+"_casok", "Bool")
+			q.assume("true", sEq(sr, sAnd(save, ok)))
+			fr.cur.reach = sr
+			rgCheck(args[2].C[0], args[1].C[0])
+			fr.cur.reach = save
+		}
+		nv := Val{C: []string{sIte(ok, args[2].C[0], now)}}
 		fr.storeVia(c.Args[0], pt.Elem(), nv)
 		return Val{C: []string{ok}}, true
 	}
